@@ -1030,7 +1030,7 @@ pub fn lane_upgrade_points(ctx: &mut Ctx) {
         let rounds = rng.range(2, if ctx.tier == Tier::Quick { 4 } else { 7 });
         let _ = len;
         for _ in 0..rounds {
-            let mut push = |op: Op, b: Option<u64>, script: &mut Vec<Op>, budgets: &mut Vec<Option<u64>>| {
+            let push = |op: Op, b: Option<u64>, script: &mut Vec<Op>, budgets: &mut Vec<Option<u64>>| {
                 script.push(op);
                 budgets.push(b);
             };
